@@ -195,3 +195,62 @@ def c21_topstride(R):
                 construct=f"{name}: stride of a top() interval overwritten",
             )
     R.need(n >= 1, "no stride write into a top() interval found (cast_low expected)")
+
+
+@rule(
+    "C21.signand",
+    props=("C21", "C24"),
+    floor=2,
+    family="GRD",
+    desc="the sign-bit shortcut of bitwise_and claims a single value (0 or the sign bit) only under a fact that puts every "
+    "member of the other operand on one side of the sign bit: an order test of one of its bounds against the sign bit "
+    "together with a no-wrap fact, or a bit test of a single value - never membership of the sign bit itself",
+)
+def c21_signand(R):
+    tree = R.tree
+    m = tree.mod(SI)
+    fn = tree.func_inlined(SI, "StridedInterval.bitwise_and")
+    for _ in range(4):
+        new = util.inline_aliases(fn, _arith)
+        if new is fn:
+            break
+        fn = new
+    # the shortcut: constructions dominated by a fact that one operand is exactly the sign bit (1 << (bits - 1))
+    n = 0
+    for c in (x for x in walk_no_nested(fn) if isinstance(x, ast.Call) and (dotted(x.func) or "").split(".")[-1] == "StridedInterval"):
+        kws = {k.arg: k.value for k in c.keywords if k.arg}
+        facts = [re.sub(r"^not \((.*)\)$", r"not \1", re.sub(r"\s+", " ", f)) for f in guards.holds(c)]
+        sign = [f for f in facts if re.search(r"== ?\(?1 << ", f) or re.search(r"1 << .* ==", f)]
+        if not sign or not (isinstance(kws.get("stride"), ast.Constant) and kws["stride"].value == 0):
+            continue
+        n += 1
+        # the operand whose bound is ordered against the sign bit (not compared with its own other bound)
+        bases = set()
+        for f in facts:
+            for mm in re.finditer(r"(\w+)\.(_?lower_bound|_?upper_bound) (<|<=|>|>=) (.+)$|^(.+) (<|<=|>|>=) (\w+)\.(_?lower_bound|_?upper_bound)$", f):
+                base = mm.group(1) or mm.group(7)
+                other = mm.group(4) or mm.group(5) or ""
+                if base and f"{base}." not in other:
+                    bases.add(base)
+        ok = any(
+            any(re.fullmatch(rf"{x}\.lower_bound <= {x}\.upper_bound|{x}\.upper_bound >= {x}\.lower_bound|{x}\.is_integer", f) for f in facts) for x in bases
+        )
+        # or: a single value whose sign bit is tested directly
+        for v in (kws.get("lower_bound"), kws.get("upper_bound")):
+            for x in ast.walk(v) if v is not None else ():
+                if isinstance(x, ast.BinOp) and isinstance(x.op, ast.BitAnd):
+                    for side in (x.left, x.right):
+                        t = ast.unparse(side)
+                        if t.endswith(("lower_bound", "upper_bound")) and f"{t.rsplit('.', 1)[0]}.is_integer" in facts:
+                            ok = True
+        R.check(
+            ok,
+            m,
+            c,
+            "single-value answer of the sign-bit AND only with every member on one side of the sign bit",
+            f"bitwise_and answers the single value `{norm(kws.get('lower_bound'))[:40]}` for x & sign-bit under "
+            f"{[f for f in facts if f not in sign][-3:]}: none of these puts all members of the other operand on one side of "
+            f"the sign bit (3 & 2 at 2 bits is 2, [9, 12] & 8 at 4 bits is {{8}})",
+            construct=f"bitwise_and: sign-bit shortcut answers the single value {norm(kws.get('lower_bound'))[:30]}",
+        )
+    R.need(n >= 2, f"bitwise_and: only {n} single-value answers found in the sign-bit shortcut")
